@@ -159,10 +159,56 @@ func fieldWriters(ld *Loader, owner, field string) []string {
 }
 
 // callersOf returns the functions that call or take the value of target.
-func callersOf(ld *Loader, target string) ([]string, bool) {
+func callersOf(ld *Loader, target string, pkg string) ([]string, bool) {
 	tf := ld.funcs[target]
 	if tf == nil {
-		return nil, false
+		// a function outside the module (os.WriteFile, os.Create, ...): call
+		// sites are matched by the callee's qualified name; the clause is
+		// meaningful even when nobody calls it (then the allowed set may be empty)
+		i := strings.LastIndex(target, ".")
+		if i < 0 || strings.Contains(target, "(") {
+			return nil, false
+		}
+		for _, p := range ld.prog.AllPackages() {
+			if strings.HasPrefix(p.Pkg.Path(), modulePath) && p.Pkg.Name() == target[:i] {
+				return nil, false // a module function that does not exist (any more)
+			}
+		}
+		known := false
+		for _, p := range ld.prog.AllPackages() {
+			if p.Pkg.Path() == target[:i] && p.Func(target[i+1:]) != nil {
+				known = true
+			}
+		}
+		if !known {
+			return nil, false
+		}
+		out := map[string]bool{}
+		for name, fn := range ld.funcs {
+			// a clause about a library function speaks for the package whose
+			// contract file states it
+			if !strings.HasPrefix(name, pkg+".") {
+				continue
+			}
+			for _, b := range fn.Blocks {
+				for _, in := range b.Instrs {
+					for _, op := range in.Operands(nil) {
+						if op == nil || *op == nil {
+							continue
+						}
+						if f, ok := (*op).(*ssa.Function); ok && f.Pkg != nil && f.Pkg.Pkg.Path()+"."+f.Name() == target {
+							out[name] = true
+						}
+					}
+				}
+			}
+		}
+		var r []string
+		for k := range out {
+			r = append(r, k)
+		}
+		sort.Strings(r)
+		return r, true
 	}
 	out := map[string]bool{}
 	for name, fn := range ld.funcs {
@@ -237,7 +283,7 @@ func frameObligation(ld *Loader, fc *FrameClause) *Obl {
 		found = fieldWriters(ld, owner, field)
 	case "callers":
 		var have bool
-		found, have = callersOf(ld, fc.Target)
+		found, have = callersOf(ld, fc.Target, fc.Pkg)
 		if !have {
 			ok, detail = false, "no such function (contract out of date)"
 		}
